@@ -106,17 +106,6 @@ def _ctor_stores(tu, ctor, vals, lo, hi, c, depth=0):
                any_param=True).descend_into(tu)
     it = Interp(ctor, o)
     eff = []
-    for b, e in ctor.events():
-        if e["e"] == "init" and "base" in e and isinstance(e.get("x"), list) and e["x"][:1] == ["ctor"] and depth < 3:
-            sub = tu.fns.get(e["x"][1])
-            if sub is not None and sub.has_body:
-                sv = {}
-                for i, a in enumerate(e["x"][3]):
-                    try:
-                        sv[i] = it.ev(a)
-                    except Unknown:
-                        pass
-                eff += _ctor_stores(tu, sub, sv, lo, hi, c, depth + 1)
     it.run()
     return eff + list(it.effects)
 
@@ -287,7 +276,7 @@ def c03b(ctx, tu):
                 vals = {}
                 for i, p in enumerate(ps):
                     vals[i] = given[i] if i < k else it0.ev(p["default"])
-                o = Oracle(params=vals)
+                o = Oracle(params=vals).descend_into(tu)     # a delegating constructor is followed
                 it = Interp(fn, o)
                 it.run()
                 st = stores(it.effects)
